@@ -670,3 +670,97 @@ class World:
         if n is None:
             raise oserr(errno.ENOENT, target)
         return n
+
+
+# ------------------------------------------------------------------ World extras
+def _world_defaults(w):
+    w.sysinfo = (16000000 * 1024, 4000000 * 1024, 500000 * 1024, 300000 * 1024,
+                 2000000 * 1024, 1500000 * 1024, 1)
+    w.users = []
+    w.partitions = []
+    w.if_addrs = []
+    w.ifaces = {}
+    w.events = []          # [(mono_time, seq, fn)]
+    w._seq = 0
+    w._overshoot = 0.0
+    w.kill_exits = False
+
+
+def _if_info(self, name):
+    try:
+        return self.ifaces[name]
+    except KeyError:
+        raise oserr(errno.ENODEV)
+
+
+def _eligible(self, p):
+    return list(range(self.ncpus))
+
+
+def _on_signal(self, p, sig):
+    if self.kill_exits and sig in (9, 15) and not p.zombie:
+        self.exit(p.pid, sig)
+
+
+def _at(self, t, fn):
+    self._seq += 1
+    self.events.append((t, self._seq, fn))
+    self.events.sort(key=lambda e: (e[0], e[1]))
+
+
+def _advance(self, dt):
+    target = self.mono + dt
+    while self.events and self.events[0][0] <= target:
+        t, _, fn = self.events.pop(0)
+        if t > self.mono:
+            self.jiffies += int(round((t - self.mono) * CLK_TCK))
+            self.mono = t
+        fn(self)
+    if target > self.mono:
+        self.jiffies += int(round((target - self.mono) * CLK_TCK))
+        self.mono = target
+
+
+def _sleep_overshoot(self):
+    return self._overshoot
+
+
+class Hang(Exception):
+    """A blocking call that can never return in this world."""
+
+
+def _do_waitpid(self, pid, flags):
+    if pid <= 0:
+        raise EscapeError("waitpid(%d)" % pid)
+    p = self.procs.get(pid)
+    if p is None or not p.is_child:
+        raise oserr(errno.ECHILD)
+    while not p.zombie:
+        if flags & _os.WNOHANG:
+            return (0, 0)
+        if not self.events:
+            raise Hang("waitpid(%d) would block forever" % pid)
+        t = self.events[0][0]
+        self.advance(max(0.0, t - self.mono))
+    self.reap(pid)
+    return (pid, p.wstatus)
+
+
+World.if_info = _if_info
+World.eligible_cpus = _eligible
+World.on_signal = _on_signal
+World.at = _at
+World.advance = _advance
+World.sleep_overshoot = _sleep_overshoot
+World.do_waitpid = _do_waitpid
+_orig_init = World.__init__
+
+
+def _init(self, *a, **k):
+    _world_defaults(self)
+    _orig_init(self, *a, **k)
+
+
+World.__init__ = _init
+
+
